@@ -8,6 +8,7 @@ package main
 
 import (
 	"fmt"
+	"go/types"
 	"sort"
 	"strings"
 
@@ -107,18 +108,64 @@ type canonCtx struct {
 	// arguments, and opaque symbols of helper-local values are kept apart per call site
 	subst map[ssa.Value]ssa.Value
 	scope string
+	// while expanding the result of a scalar helper inlined into the expression (a helper with one return statement:
+	// `part, remainder := splitAmount(x, f)`, `runoff, quick, base := state.step(rain, pet)`): its parameters stand
+	// for the polynomials of the call's arguments, and its local opaque values are kept apart per call
+	bound map[ssa.Value]poly
+	inl   string
 }
 
 func (cc *canonCtx) osym(v ssa.Value) string {
+	s := cc.pc.sym(v)
 	if cc.scope != "" && cc.subst != nil {
-		return cc.pc.sym(v) + "@" + cc.scope
+		s += "@" + cc.scope
 	}
-	return cc.pc.sym(v)
+	if cc.inl != "" {
+		s += "@" + cc.inl
+	}
+	return s
+}
+
+// inlineResult: the k-th result of a call of a module function with a single return statement, expanded in the
+// caller's terms. ok=false when the callee does not qualify.
+func (cc *canonCtx) inlineResult(call *ssa.Call, k int, depth int) (poly, bool) {
+	f := call.Common().StaticCallee()
+	if f == nil || f.Blocks == nil || !InModule(f) || call.Common().IsInvoke() || depth > 30 || strings.Count(cc.inl, "/") > 3 {
+		return nil, false
+	}
+	if pk := fnPkg(f); pk == nil || !strings.HasPrefix(relPkg(pk.Path()), "models") {
+		return nil, false
+	}
+	rets := returnsOf(f)
+	if len(rets) != 1 || k >= len(rets[0].Results) || len(f.Params) != len(call.Common().Args) {
+		return nil, false
+	}
+	if b, ok := rets[0].Results[k].Type().Underlying().(*types.Basic); !ok || b.Info()&types.IsFloat == 0 {
+		return nil, false
+	}
+	// arguments in the caller's context
+	args := map[ssa.Value]poly{}
+	for i, prm := range f.Params {
+		if b, ok := prm.Type().Underlying().(*types.Basic); ok && b.Info()&types.IsNumeric != 0 {
+			args[prm] = cc.expand(call.Common().Args[i], depth+1)
+		}
+	}
+	saveB, saveI, saveS, saveSc := cc.bound, cc.inl, cc.subst, cc.scope
+	cc.bound, cc.subst, cc.scope = args, nil, ""
+	cc.inl = saveI + "/" + fmt.Sprintf("%s#%d", f.Name(), instrIndex(call)*1000+call.Block().Index)
+	r := cc.expand(rets[0].Results[k], depth+1)
+	cc.bound, cc.inl, cc.subst, cc.scope = saveB, saveI, saveS, saveSc
+	return r, true
 }
 
 func (cc *canonCtx) expand(v ssa.Value, depth int) poly {
 	if n, ok := cc.names[v]; ok {
 		return poly{n: 1}
+	}
+	if cc.bound != nil {
+		if p, ok := cc.bound[v]; ok {
+			return p
+		}
 	}
 	if cc.subst != nil {
 		if a, ok := cc.subst[v]; ok {
@@ -139,6 +186,18 @@ func (cc *canonCtx) expand(v ssa.Value, depth int) poly {
 		}
 	case *ssa.Convert:
 		return cc.expand(x.X, depth+1)
+	case *ssa.Extract:
+		if call, ok := x.Tuple.(*ssa.Call); ok {
+			if p, ok := cc.inlineResult(call, x.Index, depth); ok {
+				return p
+			}
+		}
+	case *ssa.Call:
+		if x.Common().Signature().Results().Len() == 1 {
+			if p, ok := cc.inlineResult(x, 0, depth); ok {
+				return p
+			}
+		}
 	case *ssa.UnOp:
 		if x.Op.String() == "-" {
 			return polyMul(cc.expand(x.X, depth+1), poly{"": -1})
